@@ -11,6 +11,7 @@ import ChiaModel.Drv.C13
 import ChiaModel.Drv.C16
 import ChiaModel.Drv.C15
 import ChiaModel.Drv.C17
+import ChiaModel.Drv.C19
 import ChiaModel.Drv.C20
 import ChiaModel.Spec.CostTable
 open ChiaModel.Drv
@@ -37,6 +38,7 @@ def dispatch (line : String) : String :=
   | "C14" :: rest => C13.handle ("C14" :: rest)
   | "C15" :: rest => C15.handle ("C15" :: rest)
   | "C17" :: rest => C17.handle ("C17" :: rest)
+  | "C19" :: rest => C19.handle ("C19" :: rest)
   | "C20" :: rest => C20.handle ("C20" :: rest)
   | ["C04", "ucc", op] =>
     -- the documented closed form (Props/C04 proves the table regenerated from the source equal to it)
